@@ -11,6 +11,8 @@ interactions that depend on concrete schemas.
 """
 import ast
 
+from zcstatic.report import AnalysisError
+
 from rules.common import crosscheck
 from zcstatic.excflow import DATATYPE_SLOTS
 from zcstatic.model import src, walk_shallow
@@ -192,6 +194,17 @@ def run(ctx):
                "non-empty URL only")
     from rules import c09
     c09.pattern_rule(ctx, "C01.R8", only={"basic-key"})
+    # (the converter itself: nothing but the pattern check and lower())
+    from zcstatic import crosscheck as _X
+    _fn = m.lookup_method("ZConfig.datatypes.BasicKeyConversion", "__call__")
+    if _fn is None:
+        raise AnalysisError("anchor vanished: BasicKeyConversion.__call__")
+    _r = _X.compare(P, _fn, _X.spec_function(m, "ref_datatypes.py",
+                                             "basic_key_call",
+                                             as_method=True))
+    from rules.common import verdict as _verdict
+    _verdict(run, "C01.R8", _fn, "basic-key: pattern check, then lower()",
+             _r, m)
     PCq = "ZConfig.cfgparser.ZConfigParser"
     for live, ref, what in (
             ("start_section", "start_section", "type and name are "
